@@ -19,7 +19,7 @@ import Pog.Lemmas.Fresh
     module names   : same input class ✗
     enum members   : total, valid, keyword-free for EVERY input and every CPython case table (full)
     fresh loops    : terminate, output pairwise distinct, same length (nothing dropped) (full)
-    operation ids  : de-duplication does NOT make method names distinct ✗ (`foo,foo,foo_2`)
+    operation ids  : the de-duplication pass ends, keeps every operation, makes the method names pairwise distinct and is idempotent (full; F17 repaired)
 -/
 /-
   C20, names invented by the inline-extraction passes (`{Parent}{Prop}Item`, `{Parent}{Prop}Enum`, numeric suffix loops;
@@ -130,20 +130,53 @@ theorem suffixed_name_valid (base : Str) (k : Nat) (h : isPyIdent base = true) :
 
 /-! ## operation ids -/
 
-/-- ✗ witness: the global de-duplication leaves two operations with the same method name … -/
-theorem op_ids_nodup_counterexample :
-    methodNames ["foo".toList, "foo".toList, "foo_2".toList]
-      = ["foo".toList, "foo_2".toList, "foo_2".toList] := by decide
+/-- Two suffix candidates of one id never sanitise to the same method name: `sanitize_method_name(f"{id}_{i}")` determines `i`
+    (every id - braces, camelCase, non-ASCII, empty). -/
+theorem suffixed_method_names_differ (id : Str) (i j : Nat) (h : sufMethod id i = sufMethod id j) : i = j :=
+  Pog.sufMethod_inj id i j h
 
-/-- … and it is not idempotent (the force path runs it twice, C09). -/
-theorem op_ids_idempotent_counterexample :
-    dedupOpIds [] (dedupOpIds [] ["foo".toList, "foo".toList, "foo_2".toList])
-      ≠ dedupOpIds [] ["foo".toList, "foo".toList, "foo_2".toList] := by decide
+/-- Every `while` loop of the pass ends: from any state of `seen_methods` and any counter, the fuel `|seen_methods| + 1` of the
+    model is enough, and the name found is not taken (pigeonhole over the injective candidates). -/
+theorem op_ids_suffix_search_terminates (seen : List (Str × Nat)) (id : Str) (start : Nat) :
+    ∃ k, findFresh (sufMethod id) (seenKeys seen) start (seen.length + 1) = some k ∧ sufMethod id k ∉ seenKeys seen :=
+  Pog.dedup_search_ends seen id start
 
-/-- `op_ids_nodup` for the inputs the code gets right: when the sanitised ids are already
-    pairwise distinct the pass changes nothing (and the names stay distinct). -/
-theorem op_ids_nodup_partial (ids : List Str) (h : (ids.map sanMethod).Nodup) :
+/-- `op_ids_nodup` at full strength (F17 repaired: the suffix search skips names that are taken and records the name it hands
+    out).  For EVERY list of operation ids the pass ends (`some`: the fuel bound is provably sufficient, not assumed), keeps
+    one id per operation, every output id is the input id or the input id with a numeric suffix, and the METHOD NAMES of the
+    output are pairwise distinct. -/
+theorem op_ids_nodup (ids : List Str) :
+    ∃ out, dedupOpIds? [] ids = some out ∧ out.length = ids.length ∧ (out.map sanMethod).Nodup ∧
+      (∀ p ∈ ids.zip out, p.2 = p.1 ∨ ∃ n, p.2 = sufId p.1 n) := by
+  obtain ⟨out, h1, h2, h3, _, h5⟩ := Pog.dedupOpIds?_spec ids []
+  exact ⟨out, h1, h2, h3, h5⟩
+
+/-- The same in terms of the total function used by the downstream models (`dedupOpIds? = some ∘ dedupOpIds`). -/
+theorem method_names_nodup (ids : List Str) :
+    dedupOpIds? [] ids = some (dedupOpIds [] ids) ∧ (methodNames ids).length = ids.length ∧ (methodNames ids).Nodup :=
+  ⟨Pog.dedupOpIds?_eq_some [] ids, by simp [methodNames, (Pog.dedupOpIds_spec [] ids).1], Pog.methodNames_nodup ids⟩
+
+/-- The former witness of F17 (`foo, foo, foo_2` used to give `foo, foo_2, foo_2`) and inputs whose output must not change. -/
+theorem op_ids_nodup_former_witness :
+    dedupOpIds? [] ["foo".toList, "foo".toList, "foo_2".toList]
+      = some ["foo".toList, "foo_2".toList, "foo_2_2".toList] ∧
+    dedupOpIds? [] ["foo".toList, "foo".toList, "foo".toList]
+      = some ["foo".toList, "foo_2".toList, "foo_3".toList] ∧
+    dedupOpIds? [] ["foo_2".toList, "foo".toList, "foo".toList, "foo".toList]
+      = some ["foo_2".toList, "foo".toList, "foo_3".toList, "foo_4".toList] ∧
+    methodNames ["getUser".toList, "get_user".toList, "GetUser".toList, "get_user_2".toList]
+      = ["get_user".toList, "get_user_2".toList, "get_user_3".toList, "get_user_2_2".toList] := by decide
+
+/-- The pass is idempotent on EVERY input (it used not to be: `foo, foo, foo_2`): a second `emit` over the same operation
+    objects changes nothing (C09). -/
+theorem op_ids_idempotent (ids : List Str) : dedupOpIds [] (dedupOpIds [] ids) = dedupOpIds [] ids :=
+  Pog.dedupOpIds_idempotent ids
+
+/-- When the sanitised ids are already pairwise distinct the pass changes nothing. -/
+theorem op_ids_unchanged_when_distinct (ids : List Str) (h : (ids.map sanMethod).Nodup) :
     dedupOpIds [] ids = ids ∧ (methodNames ids).Nodup :=
   Pog.dedupOpIds_of_nodup ids h
+
+example : (["listPets".toList, "createPet".toList].map sanMethod).Nodup := by decide
 
 end Pog.C20
